@@ -5,7 +5,7 @@
         KRight:  path(X,Y) :- edge(X,Z), path(Z,Y).
         KLeft:   path(X,Y) :- path(X,Z), edge(Z,Y).
         KDouble: path(X,Y) :- path(X,Z), path(Z,Y).
-        tp k E I = immediate consequences of the interpretation I;  lfp k E = tp iterated |V|^2+1 times from the
+        tp k E I = immediate consequences of the interpretation I;  lfp k E = tp (tabulated over V x V) iterated |V|^2+1 times from the
         empty interpretation, V = the vertices occurring in E.
 
    (2)  programs are lists of instructions
@@ -37,7 +37,7 @@ Definition step (k : kind) (E : edges) (I : rel) (x y z : N) : bool :=
   end.
 
 Definition tp (k : kind) (E : edges) (I : rel) : rel :=
-  fun x y => erel E x y || existsb (step k E I x y) (verts E).
+  let vs := verts E in fun x y => erel E x y || existsb (step k E I x y) vs.
 
 Definition empty_rel : rel := fun _ _ => false.
 
@@ -45,21 +45,68 @@ Fixpoint iter (n : nat) (F : rel -> rel) (I : rel) : rel :=
   match n with O => I | S m => F (iter m F I) end.
 
 Definition universe (E : edges) : list (N * N) := list_prod (verts E) (verts E).
-Definition lfp (k : kind) (E : edges) : rel := iter (S (length (universe E))) (tp k E) empty_rel.
-
-Definition lfp_pairs (k : kind) (E : edges) : list (N * N) :=
-  filter (fun p => lfp k E (fst p) (snd p)) (universe E).
-Definition lfp_from (k : kind) (E : edges) (x : N) : list N :=
-  filter (fun y => lfp k E x y) (verts E).
 
 Definition pair_mem (p : N * N) (l : list (N * N)) : bool := existsb (fun q => (fst q =? fst p) && (snd q =? snd p)) l.
+
+(* the same relation restricted to U, stored as a table (a relation given as a closure would be re-evaluated
+   exponentially often by the iteration) *)
+Definition tabulate (U : list (N * N)) (I : rel) : rel :=
+  let l := filter (fun p => I (fst p) (snd p)) U in fun x y => pair_mem (x, y) l.
+
+Definition tpt (k : kind) (E : edges) (I : rel) : rel := tabulate (universe E) (tp k E I).
+Definition lfp (k : kind) (E : edges) : rel := iter (S (length (universe E))) (tpt k E) empty_rel.
+
+(* (the relation is passed as an argument so that it is computed once) *)
+Definition pairs_of (L : rel) (E : edges) : list (N * N) := filter (fun p => L (fst p) (snd p)) (universe E).
+Definition from_of (L : rel) (E : edges) (x : N) : list N := filter (fun y => L x y) (verts E).
+Definition lfp_pairs (k : kind) (E : edges) : list (N * N) := pairs_of (lfp k E) E.
+Definition lfp_from (k : kind) (E : edges) (x : N) : list N := from_of (lfp k E) E x.
+
 Definition n_mem (x : N) (l : list N) : bool := existsb (N.eqb x) l.
 
 (* observed answer sets (any order, duplicates allowed) against the model *)
-Definition check_all (k : kind) (E : edges) (obs : list (N * N)) : bool :=
-  forallb (fun p => pair_mem p obs) (lfp_pairs k E) && forallb (fun p => lfp k E (fst p) (snd p)) obs.
-Definition check_from (k : kind) (E : edges) (x : N) (obs : list N) : bool :=
-  forallb (fun y => n_mem y obs) (lfp_from k E x) && forallb (fun y => lfp k E x y) obs.
+Definition check_all_with (L : rel) (E : edges) (obs : list (N * N)) : bool :=
+  forallb (fun p => pair_mem p obs) (pairs_of L E) && forallb (fun p => L (fst p) (snd p)) obs.
+Definition check_from_with (L : rel) (E : edges) (x : N) (obs : list N) : bool :=
+  forallb (fun y => n_mem y obs) (from_of L E x) && forallb (fun y => L x y) obs.
+Definition check_all (k : kind) (E : edges) (obs : list (N * N)) : bool := check_all_with (lfp k E) E obs.
+Definition check_from (k : kind) (E : edges) (x : N) (obs : list N) : bool := check_from_with (lfp k E) E x obs.
+
+(* one graph: the full answer set and the answers from given start nodes, for one program kind *)
+Definition check_graph (k : kind) (E : edges) (obs : list (N * N)) (froms : list (N * list N)) (bounds : list (N * N * bool)) : bool :=
+  let L := lfp k E in
+  check_all_with L E obs && forallb (fun q => check_from_with L E (fst q) (snd q)) froms &&
+  forallb (fun b => Bool.eqb (L (fst (fst b)) (snd (fst b))) (snd b)) bounds.
+
+(* ---- a cheaper, certificate-based comparison for larger graphs (vm_compute is slow here): every observed pair comes
+        with a witness path found by the (untrusted) driver; the checker validates the paths and checks that the
+        observed set contains the edges and is closed under one more edge on the left.  Sound w.r.t. reachability,
+        hence w.r.t. lfp (theorem cert_check_meaning). *)
+Fixpoint valid_path (E : edges) (x : N) (p : list N) (y : N) : bool :=
+  match p with
+  | [] => erel E x y
+  | z :: p' => erel E x z && valid_path E z p' y
+  end.
+
+Definition cert := (N * list N * N)%type.          (* (x, intermediate vertices, y) *)
+Definition ends (c : cert) : N * N := (fst (fst c), snd c).
+
+Definition closed_right (E : edges) (obs : list (N * N)) : bool :=
+  forallb (fun e => pair_mem e obs) E &&
+  forallb (fun e => forallb (fun q => negb (snd e =? fst q) || pair_mem (fst e, snd q) obs) obs) E.
+
+Definition same_set (a b : list (N * N)) : bool :=
+  forallb (fun p => pair_mem p b) a && forallb (fun p => pair_mem p a) b.
+
+Definition from_ok (all : list (N * N)) (x : N) (ys : list N) : bool :=
+  forallb (fun y => pair_mem (x, y) all) ys && forallb (fun p => negb (fst p =? x) || n_mem (snd p) ys) all.
+
+Definition cert_check (E : edges) (certs : list cert) (others : list (list (N * N))) (froms : list (N * list N))
+                      (bounds : list (N * N * bool)) : bool :=
+  let all := map ends certs in
+  closed_right E all && forallb (fun c => valid_path E (fst (fst c)) (snd (fst c)) (snd c)) certs &&
+  forallb (same_set all) others && forallb (fun q => from_ok all (fst q) (snd q)) froms &&
+  forallb (fun b => Bool.eqb (pair_mem (fst b) all) (snd b)) bounds.
 
 (* ------------------------------------------------------------------ (2) reset / shift *)
 Inductive handler := HDrop | HResume | HLoop | HSum (acc : N).
